@@ -304,5 +304,8 @@ theorem build_active (p : Prog) : ActiveSpec ρ p := by
   | istmt s k _ =>
     intro B B' env env' ch h hr hw ha hact hch
     simp [build] at h
+  | enif c body k _ _ =>
+    intro B B' env env' ch h hr hw ha hact hch
+    simp [build] at h
 
 end Gatery.C05
